@@ -19,12 +19,45 @@ RULE = ('Cases = generated scene (exact_counts 50% with 1-5 flat layers of exact
         '(per-level okta tuple, MSA-position pattern, n_above vs MAX_HITS_OKTA0, message).')
 ASSUMPTIONS = ['the cropped-hit count is computed by the harness from the input rows (crop model), not from '
                'the chunk flag', 'crashes of run() are left to C08']
-BUDGET = {'quick': 1300, 'thorough': 40000}
+BUDGET = {'quick': 1200, 'thorough': 40000}
+COVER_TABLE = ('cells = (okta-class tuple of the layers table with <= 4 rows: 781 tuples) x (pattern of rows at/above the '
+               'MSA) x (number of cropped hits > MAX_HITS_OKTA0)')
 WEIGHTS = {'exact_counts': 10, 'layered': 4, 'merge_chain': 2, 'degenerate': 2, 'ref_window': 2}
 
 
 def strategy(tier):
     return S.pipeline_case(WEIGHTS, vary=('msa', 'okta', 'sep'), p_default_prms=0.1)
+
+
+def jobs(tier, seed):
+    from vlib.props import c01
+    return c01.jobs(tier, seed, kmax={'quick': 2, 'thorough': 4}[tier])
+
+
+def run_job(job, ctx):
+    import itertools
+    from vlib.props import c01
+    k = job['k']
+    for rest in itertools.product(range(5), repeat=k - 1):
+        classes = (job['first'],) + rest
+        for msa in c01.enum_msas(k):
+            for extra_high in (0, 3):
+                case = c01.enum_case(classes, msa)
+                # optional cirrus far above every MSA+buffer: drives the high-cloud flag (3 > MAX_HITS_OKTA0 = 2)
+                for i in range(extra_high):
+                    case['rows'].append(['a', -900.0 + 30.0 * i, 30000.0, len([r for r in case['rows']
+                                                                             if r[1] == -900.0 + 30.0 * i and r[3] > 0]) + 1])
+                # a measurement cannot hold a non-detection and a hit: drop the non-detection rows that got company
+                keep = []
+                for r in case['rows']:
+                    if r[3] == 0 and any(q[1] == r[1] and q[3] != 0 for q in case['rows']):
+                        continue
+                    keep.append(r)
+                case['rows'] = keep
+                ctx.record(case, check(case))
+    if job['first'] == 4:
+        ctx.stats.exhaustive.append(f'all okta-class tuples of {k} stacked flat layers x MSA None / below all / at each base / '
+                                    'between / above x {0, 3} hits far above MSA+buffer (MAX_HITS_OKTA0 = 2)')
 
 
 def check_level(msg, table, msa, n_above, max0, res, which):
@@ -85,6 +118,10 @@ def check(case):
         if late_ceiling or (msg in ('NCD', 'NSC') and table) or inrange:
             res.nontrivial = True
         if which == 'layers':
+            if len(table) <= 4:
+                from vlib.props.c01 import okta_class
+                res.cover.append(f"{tuple(okta_class(r['okta']) for r in table)}|"
+                                 f"{tuple(int(r['height_base'] >= msa_val) for r in table)}|{int(n_above > max0)}")
             if late_ceiling:
                 res.labels.append('late-ceiling')
             if inrange:
